@@ -87,6 +87,8 @@ def prepare_process():
     except Exception:
         pass
     sys.dont_write_bytecode = True
+    import warnings
+    warnings.simplefilter('ignore')
 
 
 def _shard_seed(seed, part, idx):
